@@ -54,9 +54,18 @@ module.exports = mk({
     // modified bodies under the same byte variants (status must say modified, trailer present)
     const mods = ['function f(a, b) { return a + b }', 'function f(a) {\n  return a.trim()\n}\n', 'function f(s) { return s?.trim() }']
     for (const m of mods) for (const b of Object.keys(BYTE_VARIANTS)) for (const cfg of ['FULL', 'NOTHING']) { r.stats.states++; r.stats.transitions++; leaves.push({ fam: 'mod', key: 'md¦' + m + '¦' + b + '¦' + cfg, code: BYTE_VARIANTS[b](m), config: cfg, desc: 'mod:' + b }) }
+    // modified / not-modified bodies that carry a map reference of every kind, chaining on and off: the status,
+    // the prologue and the embedded map must not depend on whether the referenced map is usable
+    const b64 = (x) => Buffer.from(x, 'utf8').toString('base64')
+    const VALID = JSON.stringify({ version: 3, sources: ['o.ts'], names: [], mappings: 'AAAA;AACA;AACA' })
+    const REFS = { none: '', missing: '\n//# sourceMappingURL=nowhere.js.map', inline_valid: '\n//# sourceMappingURL=data:application/json;base64,' + b64(VALID), inline_not_a_map: '\n//# sourceMappingURL=data:application/json;base64,' + b64('not a map'), bad_b64: '\n//# sourceMappingURL=data:application/json;base64,@@@=', empty_map: '\n//# sourceMappingURL=data:application/json;base64,' + b64(JSON.stringify({ version: 3, sources: [], names: [], mappings: '' })), block: '\n/*# sourceMappingURL=nowhere.js.map */', two: '\n//# sourceMappingURL=a.map\n//# sourceMappingURL=b.map' }
+    for (const body of mods.concat([NOTMOD_BODIES.literal_sums, NOTMOD_BODIES.minus])) for (const ref of Object.keys(REFS)) for (const chain of [true, false]) for (const comments of [true, false]) {
+      r.stats.states++; r.stats.transitions++
+      leaves.push({ fam: 'mapref', key: 'mr¦' + body + '¦' + ref + '¦' + chain + '¦' + comments, code: body + REFS[ref] + '\n', config: Object.assign({}, C.FULL, { chainSourceMap: chain, comments }), desc: 'mapref:' + ref + ':' + chain })
+    }
     // status logic must not depend on the telemetry implementation chosen by the verbosity
     const F = require('../grammar/families')
-    for (const fam of [F.familyS(tier), F.familyM(tier)]) {
+    for (const fam of [F.familyS(tier, tier === 'thorough' ? {} : { L: 2 }), F.familyM(tier)]) {
       for (const l of fam.leaves) for (const verb of ['OFF', 'DEBUG', 'MANDATORY']) { r.stats.states++; r.stats.transitions++; leaves.push(Object.assign({}, l, { key: l.key + '¦verb=' + verb, config: Object.assign({}, C.FULL, { telemetryVerbosity: verb }) })) }
     }
     return { leaves, stats: r.stats }
